@@ -770,4 +770,275 @@ theorem have_cell_from_cache_breaks_liveness :
     let s3 := (lstep (lstep (lstep s0 (.create 1 10)).1 (.load 1)).1 (.consume 1)).1
     haveCellFast s3 1 = true ∧ (lstep s3 (.haveCell 1)).2 = .live false ∧ s3.live 1 = false := by decide
 
+/-! ## round 6: the verification switch (assume-valid) and the block cycle sum -/
+
+theorem fullSw_false (k : Content) (m : Nat) (tr : Bool) (w : Nat) : fullSw k m false tr w = full k m tr w := by
+  unfold fullSw full; simp
+
+theorem cachedSw_false (k : Content) (m : Nat) (c : VCache) (tr : Bool) (w : Nat) :
+    cachedSw k m c false tr w = cached k m c tr w := by
+  unfold cachedSw cached; rw [fullSw_false]
+
+theorem txResultsSw_false (k : Content) (m : Nat) (c : VCache) (txs : List (Nat × Bool)) :
+    txResultsSw k m c false txs = txResults k m c txs := by
+  induction txs with
+  | nil => rfl
+  | cons t rest ih => obtain ⟨w, tr⟩ := t; simp only [txResultsSw, txResults, cachedSw_false, ih]
+
+/-- with the switch off `BlockTxsVerifier::verify` is the function the earlier theorems are about -/
+theorem blockVerifySw_false (k : Content) (m : Nat) (c : VCache) (txs : List (Nat × Bool)) :
+    blockVerifySw k m c false txs = blockVerify k m c txs := by
+  unfold blockVerifySw blockVerify; rw [txResultsSw_false]; rfl
+
+/-- **A block verified with scripts skipped leaves the verification cache as it was** (06109c6). -/
+theorem skip_block_cache_unchanged (k : Content) (m : Nat) (c : VCache) (txs : List (Nat × Bool)) :
+    (blockVerifySw k m c true txs).1 = c := by
+  unfold blockVerifySw
+  cases txResultsSw k m c true txs with
+  | error e => rfl
+  | ok rs => simp only []; split <;> rfl
+
+/-- every block, with either switch, keeps the cache sound -/
+theorem blockSw_sound_preserved {k : Content} {m : Nat} {c : VCache} (hs : Sound k m c) (skip : Bool)
+    (txs : List (Nat × Bool)) : Sound k m (blockVerifySw k m c skip txs).1 := by
+  cases skip with
+  | true => rw [skip_block_cache_unchanged]; exact hs
+  | false => rw [blockVerifySw_false]; exact block_sound_preserved hs txs
+
+theorem nstepS_sound {k : Content} {m : Nat} {since : Nat → Nat} {s : NodeS} (hs : Sound k m s.cache) (op : NOpS) :
+    Sound k m (nstepS k m since s op).1.cache := by
+  cases op with
+  | reorg ctx => exact hs
+  | block skip ws => exact blockSw_sound_preserved hs skip _
+  | submit w => exact sound_preserved hs (.verify w (mature since s.ctx w))
+  | probe w => exact hs
+  | evict w => exact sound_preserved hs (.evict w)
+
+theorem nstepS_ctx {k : Content} {m : Nat} {since : Nat → Nat} (s : NodeS) (op : NOpS) :
+    (nstepS k m since s op).1.ctx = match op with | .reorg c => c | _ => s.ctx := by
+  cases op <;> rfl
+
+/-- **Assume-valid blocks never change a later verdict**: over every history that interleaves
+blocks verified with scripts skipped with fully verified blocks, pool submissions, dry runs,
+reorganisations and evictions, every answer that involves running scripts is the answer of a node
+without a verification cache. -/
+theorem node_run_sw_eq_cold {k : Content} {m : Nat} {since : Nat → Nat} {s : NodeS} (hs : Sound k m s.cache)
+    (ops : List NOpS) : nrunS k m since s ops = nrunSCold k m since s.ctx ops := by
+  induction ops generalizing s with
+  | nil => rfl
+  | cons op ops ih =>
+    have hs' := nstepS_sound (since := since) hs op
+    have hc := nstepS_ctx (k := k) (m := m) (since := since) s op
+    cases op with
+    | reorg ctx => simp only [nrunS, nrunSCold]; rw [ih hs']; simp [nstepS]
+    | block skip ws =>
+      cases skip with
+      | true => simp only [nrunS, nrunSCold]; rw [ih hs']; simp [nstepS]
+      | false =>
+        simp only [nrunS, nrunSCold]; rw [ih hs']
+        simp only [nstepS, blockVerifySw_false, block_verdict_eq_uncached hs]
+    | submit w =>
+      simp only [nrunS, nrunSCold]; rw [ih hs']
+      simp only [nstepS, cached_verdict_eq_uncached hs]
+    | probe w =>
+      simp only [nrunS, nrunSCold]; rw [ih hs']
+      simp only [nstepS, cached_verdict_eq_uncached hs]
+    | evict w => simp only [nrunS, nrunSCold]; rw [ih hs']; simp [nstepS]
+
+/-- non-vacuity: 3 is committed by an assume-valid block (nothing cached), then fully verified on
+another branch (real cycles), then an assume-valid block commits it again -/
+example : nrunS exK 1000 (fun _ => 0) ⟨5, []⟩ [.block true [3], .block false [3], .block true [3], .probe 3]
+    = [.none, .blk (.ok [⟨300, 3⟩]), .none, .tx (.ok ⟨300, 3⟩)] := by decide
+
+/-- The fill rule matters (F32, the code before 06109c6): an assume-valid block that files its
+`cycles = 0` results makes the next full verification of the same transaction skip its scripts. -/
+theorem skip_fill_PreF32_poisons_cache :
+    nrunSPreF32 exK 1000 (fun _ => 0) ⟨5, []⟩ [.block true [3], .block false [3], .block true [7], .block false [7]]
+      ≠ nrunSCold exK 1000 (fun _ => 0) 5 [.block true [3], .block false [3], .block true [7], .block false [7]] := by
+  decide
+
+/-- the answer of an assume-valid block itself: per transaction the same verdict, error class and
+**fee** as without a cache … -/
+theorem skip_cached_fee_eq_uncached {k : Content} {m : Nat} {c : VCache} (hs : Sound k m c) (tr : Bool) (w : Nat) :
+    (cachedSw k m c true tr w).map (·.fee) = (fullSw k m true tr w).map (·.fee) := by
+  unfold cachedSw
+  cases hp : c.peek w with
+  | none => rfl
+  | some e =>
+    have h := hs w e hp
+    cases tr with
+    | false => simp [fullSw, Except.map]
+    | true =>
+      cases hc : k.capacityOk w <;> cases hsx : k.script w <;> cases hfx : k.fee w <;>
+        simp_all [full, fullSw, Except.map]
+      all_goals (split at h <;> simp_all)
+      all_goals (cases h; rfl)
+
+/-- … but the recorded **cycles** are the cached ones on a hit and 0 on a miss: with scripts
+skipped, `BlockExt.cycles` of a node depends on its verification cache (reported as a finding
+candidate; the warm node's number is the real one). -/
+theorem skip_hit_reports_cached_cycles {k : Content} {m : Nat} {c : VCache} {w : Nat} {e : Completed}
+    (hp : c.peek w = some e) : cachedSw k m c true true w = .ok e := by
+  unfold cachedSw; simp [hp]
+
+theorem skip_miss_reports_zero_cycles {k : Content} {m : Nat} {c : VCache} {w : Nat} {r : Completed}
+    (hp : c.peek w = none) (h : cachedSw k m c true true w = .ok r) : r.cycles = 0 := by
+  unfold cachedSw at h; simp only [hp] at h
+  unfold fullSw at h
+  simp at h
+  split at h <;> simp_all
+  split at h <;> simp_all
+  cases h; rfl
+
+theorem skip_block_cycles_depend_on_cache_witness :
+    Sound exK 1000 [(3, ⟨300, 3⟩)] ∧
+    (blockVerifySw exK 1000 [(3, ⟨300, 3⟩)] true [(3, true)]).2 = .ok [⟨300, 3⟩] ∧
+    (blockVerifySw exK 1000 [] true [(3, true)]).2 = .ok [⟨0, 3⟩] := by
+  refine ⟨?_, by decide, by decide⟩
+  intro w e h
+  simp only [VCache.peek, List.find?] at h
+  by_cases hw : w = 3
+  · subst hw; simp at h; subst h; decide
+  · have : ((3 : Nat) == w) = false := by simp; omega
+    simp [this] at h
+
+/-- a node without a cache never refuses an assume-valid block for its cycle sum -/
+theorem skip_cold_results_zero_cycles {k : Content} {m : Nat} (txs : List (Nat × Bool)) (rs : List (Nat × Completed))
+    (h : txResultsSw k m [] true txs = .ok rs) : ∀ r ∈ rs, r.2.cycles = 0 := by
+  induction txs generalizing rs with
+  | nil => simp [txResultsSw] at h; subst h; simp
+  | cons t rest ih =>
+    obtain ⟨w, tr⟩ := t
+    simp only [txResultsSw] at h
+    cases hf : cachedSw k m [] true tr w with
+    | error e => simp [hf] at h
+    | ok r =>
+      simp only [hf] at h
+      cases hr : txResultsSw k m [] true rest with
+      | error e => simp [hr] at h
+      | ok rs' =>
+        simp only [hr] at h
+        cases h
+        intro x hx
+        simp only [List.mem_cons] at hx
+        rcases hx with hx | hx
+        · subst hx
+          cases tr with
+          | false => unfold cachedSw fullSw at hf; simp [VCache.peek] at hf
+          | true => exact skip_miss_reports_zero_cycles (c := []) (by simp [VCache.peek]) hf
+        · exact ih rs' hr x hx
+
+/-- The cycle sum is over **all** transactions of the block, hits included
+(`block_verdict_eq_uncached` proves it for the code as written). A sum over the transactions whose
+scripts ran in this call lets a warm cache lift `max_block_cycles`: 9 and 8 were verified one by one
+(900 + 800 > 1000). -/
+theorem miss_only_cycle_sum_breaks_block_verdict :
+    Sound exK 1000 [(9, ⟨900, 9⟩), (8, ⟨800, 8⟩)] ∧
+    (blockVerifyMissSum exK 1000 [(9, ⟨900, 9⟩), (8, ⟨800, 8⟩)] [(9, true), (8, true)]).2 = .ok [⟨900, 9⟩, ⟨800, 8⟩] ∧
+    (blockVerify exK 1000 [] [(9, true), (8, true)]).2 = .error .cycles ∧
+    (blockVerify exK 1000 [(9, ⟨900, 9⟩), (8, ⟨800, 8⟩)] [(9, true), (8, true)]).2 = .error .cycles := by
+  refine ⟨?_, by decide, by decide, by decide⟩
+  intro w e h
+  simp only [VCache.peek, List.find?] at h
+  by_cases hw : w = 9
+  · subst hw; simp at h; subst h; decide
+  · have h9 : ((9 : Nat) == w) = false := by simp; omega
+    simp [h9] at h
+    by_cases hw8 : w = 8
+    · subst hw8; simp at h; subst h; decide
+    · have h8 : ((8 : Nat) == w) = false := by simp; omega
+      simp [h8] at h
+
+/-- the boundary of the sum check: a block whose cycles add up to exactly the limit passes, one
+cycle more does not — with and without the cache (instances of `block_verdict_eq_uncached`) -/
+example : (blockVerify exK 1700 [(9, ⟨900, 9⟩)] [(9, true), (8, true)]).2 = .ok [⟨900, 9⟩, ⟨800, 8⟩] ∧
+    (blockVerify exK 1699 [(9, ⟨900, 9⟩)] [(9, true), (8, true)]).2 = .error .cycles := by decide
+
+/-! ## round 6: declared cycles (`submit_remote_tx`) -/
+
+theorem full_ok_shape {k : Content} {m : Nat} {w : Nat} {e : Completed} (h : full k m true w = .ok e) :
+    ∃ cyc f, k.capacityOk w = true ∧ k.script w = some cyc ∧ cyc ≤ m ∧ k.fee w = some f ∧ e = ⟨cyc, f⟩ := by
+  unfold full at h
+  cases hc : k.capacityOk w <;> cases hsx : k.script w <;> cases hfx : k.fee w <;> simp_all
+  all_goals (split at h <;> simp_all)
+  all_goals omega
+
+theorem cached_hit {k : Content} {d : Nat} {c : VCache} {w : Nat} {e : Completed} (hp : c.peek w = some e) (tr : Bool) :
+    cached k d c tr w = if !tr then .error .timeRelative else .ok e := by
+  unfold cached; rw [hp]
+
+theorem cached_nil (k : Content) (d : Nat) (tr : Bool) (w : Nat) : cached k d [] tr w = full k d tr w := by
+  unfold cached; rfl
+
+theorem full_of_shape {k : Content} {w cyc f : Nat} (h1 : k.capacityOk w = true) (h2 : k.script w = some cyc)
+    (h4 : k.fee w = some f) (d : Nat) :
+    full k d true w = if cyc > d then .error .script else .ok ⟨cyc, f⟩ := by
+  unfold full; simp [h1, h2, h4]
+
+/-- **A relayed transaction is accepted with the cache iff it is accepted without**, with the same
+cycles and fee, whatever cycles the peer declared and whatever limit the entry was produced under. -/
+theorem declared_accept_eq_uncached {k : Content} {m : Nat} {c : VCache} (hs : Sound k m c)
+    (declared : Nat) (tr : Bool) (w : Nat) (v : Completed) :
+    processDeclared k c declared tr w = .ok v ↔ processDeclared k [] declared tr w = .ok v := by
+  unfold processDeclared
+  rw [cached_nil]
+  cases hp : c.peek w with
+  | none => unfold cached; rw [hp]
+  | some e =>
+    obtain ⟨cyc, f, h1, h2, h3, h4, h5⟩ := full_ok_shape (hs w e hp)
+    subst h5
+    rw [cached_hit hp]
+    cases tr with
+    | false => simp [full]
+    | true =>
+      rw [full_of_shape h1 h2 h4]
+      by_cases hd : declared = cyc
+      · subst hd; simp
+      · by_cases hlt : cyc > declared
+        · simp [hd, hlt]
+        · simp [hd, hlt]
+
+/-- … and every rejection has the same reason, except one: the peer declared FEWER cycles than the
+transaction needs and the node holds an entry for it — the node with the entry answers
+`DeclaredWrongCycles(declared, real)` (relay stays allowed), the node without runs the scripts under
+the declared limit and answers `ExceededMaximumCycles` (a script error). Both refuse. -/
+theorem declared_reject_reason {k : Content} {m : Nat} {c : VCache} (hs : Sound k m c)
+    (declared : Nat) (tr : Bool) (w : Nat) :
+    processDeclared k c declared tr w = processDeclared k [] declared tr w ∨
+    (∃ e, c.peek w = some e ∧ tr = true ∧ declared < e.cycles ∧
+      processDeclared k c declared tr w = .error (.declaredWrongCycles declared e.cycles) ∧
+      processDeclared k [] declared tr w = .error (.verification .script)) := by
+  cases hp : c.peek w with
+  | none => left; unfold processDeclared; rw [cached_nil]; unfold cached; rw [hp]
+  | some e =>
+    obtain ⟨cyc, f, h1, h2, h3, h4, h5⟩ := full_ok_shape (hs w e hp)
+    subst h5
+    cases tr with
+    | false => left; unfold processDeclared; rw [cached_nil, cached_hit hp]; simp [full]
+    | true =>
+      by_cases hlt : declared < cyc
+      · right
+        refine ⟨⟨cyc, f⟩, rfl, rfl, hlt, ?_, ?_⟩
+        · unfold processDeclared; rw [cached_hit hp]
+          have : declared ≠ cyc := by omega
+          simp [this]
+        · unfold processDeclared; rw [cached_nil, full_of_shape h1 h2 h4]
+          have : cyc > declared := by omega
+          simp [this]
+      · left
+        unfold processDeclared
+        rw [cached_nil, cached_hit hp, full_of_shape h1 h2 h4]
+        have : ¬ cyc > declared := by omega
+        simp [this]
+
+/-- the exception is real: 3 needs 300 cycles, the peer declares 200 -/
+theorem declared_below_real_reason_depends_on_cache :
+    processDeclared exK [(3, ⟨300, 3⟩)] 200 true 3 = .error (.declaredWrongCycles 200 300) ∧
+    processDeclared exK [] 200 true 3 = .error (.verification .script) ∧
+    processDeclared exK [(3, ⟨300, 3⟩)] 300 true 3 = .ok ⟨300, 3⟩ ∧
+    processDeclared exK [] 300 true 3 = .ok ⟨300, 3⟩ ∧
+    processDeclared exK [(3, ⟨300, 3⟩)] 400 true 3 = .error (.declaredWrongCycles 400 300) ∧
+    processDeclared exK [] 400 true 3 = .error (.declaredWrongCycles 400 300) ∧
+    processDeclared exK [(3, ⟨300, 3⟩)] 300 false 3 = .error (.verification .timeRelative) := by decide
+
 end CkbVerif.C14
